@@ -644,3 +644,11 @@ _NEW_G = "        recs = jnp.stack(\n            [state[rec_states[k]][rec_inds[
 for _p in ("C06", "C07", "C08"):
     P(_p, IG, _OLD_G, _NEW_G)
 B("C08", IG, _OLD_G, _NEW_G.replace("rec_inds[k]]", "rec_inds[-k]]"), "R-C08-recs")
+# dictionaries handed to compute_current / update_states built by comprehensions (entries must still be the channel's own rows)
+_OLD_CS = "            channel_states = {}\n            for s in channel_state_names:\n                channel_states[s] = states[s][indices]"
+for _p, _r in (("C02", "R-C02-currents"), ("C15", "R-C15-currents")):
+    P(_p, BASE, _OLD_CS, "            channel_states = {s: states[s][indices] for s in channel_state_names}")
+    B(_p, BASE, _OLD_CS, "            channel_states = {s: states[s] for s in channel_state_names}", _r)
+_OLD_QS = "            channel_states = query_channel_states_and_params(\n                states, channel_state_names, channel_indices\n            )\n\n            states_updated"
+P("C03", BASE, _OLD_QS, "            channel_states = {s: states[s][channel_indices] for s in channel_state_names}\n\n            states_updated")
+B("C03", BASE, _OLD_QS, "            channel_states = {s: states[s] for s in channel_state_names}\n\n            states_updated", "R-C03-rows")
